@@ -363,6 +363,82 @@ pub fn run(seed: u64, n: usize, out: &mut Out) {
         }
     }
 
+    // (b2) LONG arrays (1025..5000 elements) of the smallest frames there are - the empty simple string and the
+    // empty error are 3 bytes on the wire, less than any other frame - with a few other elements mixed in; at top
+    // level, as the last element of an outer array, two levels down; with and without trailing bytes
+    let n_long = (n / 75).clamp(4, 24);
+    for i in 0..n_long {
+        let count = match i % 4 {
+            0 => 1025usize,
+            1 => cx.rng.pick(&[1026usize, 1100, 2048, 4096, 5000]),
+            _ => cx.rng.range(1025, 5000) as usize,
+        };
+        let style = cx.rng.below(3); // all simple strings | all errors | both
+        let others_per_mille = cx.rng.pick(&[0u64, 0, 5, 30, 80]);
+        let elems: Vec<RespValue> = (0..count)
+            .map(|_| {
+                if cx.rng.below(1000) < others_per_mille {
+                    match cx.rng.below(6) {
+                        0 => RespValue::Integer(cx.rng.range(0, 9)),
+                        1 => RespValue::BulkString(Some(String::new())),
+                        2 => RespValue::BulkString(None),
+                        3 => RespValue::SimpleString("a".into()),
+                        4 => RespValue::Array(vec![]),
+                        _ => RespValue::Error("e".into()),
+                    }
+                } else if style == 0 || (style == 2 && cx.rng.chance(1, 2)) {
+                    RespValue::SimpleString(String::new())
+                } else {
+                    RespValue::Error(String::new())
+                }
+            })
+            .collect();
+        let big = RespValue::Array(elems);
+        let v = match i % 3 {
+            0 => big,
+            1 => RespValue::Array(vec![RespValue::Integer(7), RespValue::BulkString(Some("x".into())), big]),
+            _ => RespValue::Array(vec![RespValue::Array(vec![RespValue::SimpleString(String::new()), big])]),
+        };
+        let vtxt = show(&v);
+        let Some(e) = enc(&v) else {
+            cx.out.violation("C14", "RespSerializer::serialize panicked".into(), vec![format!("renc A[... {count} elements]")]);
+            continue;
+        };
+        cx.out.line(format!("renc {vtxt}"), hx(&e));
+        cx.out.bump("values");
+        cx.out.bump("long_arrays_of_tiny_elements");
+        cx.out.note_case(&vtxt);
+        // nothing after the value, then a few more bytes after it
+        let x = loop {
+            let x = cx.suffix();
+            if !x.is_empty() {
+                break x;
+            }
+        };
+        let mut ex = e.clone();
+        ex.extend_from_slice(&x);
+        for (buf, what) in [(&e, "serialize(v)"), (&ex, "serialize(v) ++ x")] {
+            let r = cx.check(buf, false);
+            cx.out.bump("roundtrips");
+            if r != Dec::Ok(v.clone(), e.len()) {
+                let got = r.show();
+                cx.out.violation(
+                    "C14",
+                    format!("array of {count} tiny elements ({} bytes encoded): parse({what}) = {} instead of the value and its {} bytes", e.len(), &got[..got.len().min(120)], e.len()),
+                    vec![format!("renc {}", if vtxt.len() > 400 { format!("{}...", &vtxt[..400]) } else { vtxt.clone() }), rdec_line(buf)],
+                );
+            }
+        }
+        // strict prefixes: need more data
+        for c in [e.len() - 1, e.len() - 3, cx.rng.below(e.len() as u64) as usize] {
+            cx.out.bump("prefix_checks");
+            let r = dec(&e[..c]);
+            if r != Dec::Incomplete {
+                cx.out.violation("C13", format!("strict prefix ({c} of {} bytes) of a valid frame gives {} instead of need-more-data", e.len(), &r.show()[..40.min(r.show().len())]), vec![rdec_line(&e[..c])]);
+            }
+        }
+    }
+
     // (c) mutations of valid encodings
     let n_mut = n * 3;
     for _ in 0..n_mut {
